@@ -141,8 +141,23 @@ def check_molecule(ctx, smi, tag):
                     by_heavy[x] = by_heavy.get(x, 0) + 1
             if any(v >= 2 for v in by_heavy.values()):
                 ctx.count("implicit_hydrogen_multi_h_same_atom")
+            d3 = WG.gdigest(e3)
             out = implicit_hydrogen(e3, set(keep))
             ctx.count("implicit_hydrogen_checked")
+            if WG.gdigest(e3) != d3:
+                ctx.violation("input-mutated", {**wit, "preserve": sorted(keep), "call": "implicit_hydrogen"},
+                              "implicit_hydrogen modified the graph it was given (documented to work on a copy)")
+                e3 = e.copy()
+                for n in e3.nodes:
+                    e3.nodes[n]["atom_map"] = n
+            if keep:
+                d3 = WG.gdigest(e3)
+                w1 = graph_to_smi(e3, preserve_atom_maps=sorted(keep))
+                w2 = graph_to_smi(e3, preserve_atom_maps=sorted(keep))
+                ctx.count("graph_to_smi_preserve_checked")
+                if WG.gdigest(e3) != d3 or w1 != w2 or w1 is None or canon(w1) != ref:
+                    ctx.violation("input-mutated" if WG.gdigest(e3) != d3 else "h-molecule", {**wit, "preserve": sorted(keep), "call": "graph_to_smi(preserve_atom_maps=...)"},
+                                  f"graph_to_smi with preserved hydrogens: first call {w1!r}, second call on the same graph {w2!r}, molecule {ref!r}")
             want_nodes = set(g.nodes) | keep
             prob = None
             if set(out.nodes) != want_nodes:
